@@ -230,6 +230,7 @@ type Instance struct {
 	iavl    bool
 	qn      uint64
 	notes   []string
+	discard bool // simulate: never write the branch back
 }
 
 var sharedReg codectypes.InterfaceRegistry
@@ -338,7 +339,9 @@ func (in *Instance) RunTx(typeURL string, wire []byte, faults []bool) (out TxRes
 		out.Res, out.Err = "err", err.Error()
 		return
 	}
-	write()
+	if !in.discard {
+		write()
+	}
 	out.Res = "ok"
 	out.Events = res.GetEvents()
 	if len(res.MsgResponses) == 1 {
@@ -401,7 +404,9 @@ func (in *Instance) RunBatch(txs [][2]any, faults []bool) (out TxResult, inner [
 		}
 		out.Events = append(out.Events, one.Events...)
 	}
-	write()
+	if !in.discard {
+		write()
+	}
 	return
 }
 
